@@ -126,6 +126,10 @@ SHAPES = [  # frequent real-world shapes and the corner cases around the mapper'
     lambda n: ["seq", [["el", n[0], ""], ["or", [["el", n[1], ""], ["el", n[2 % len(n)], ""], ["el", n[3 % len(n)], ""]], "*"]], ""]
     if len(n) > 3 else ["el", n[0], "+"],
     lambda n: ["or", [["el", n[0], ""], ["seq", [["el", n[1], ""], ["el", n[2 % len(n)], ""]], ""]], ""] if len(n) > 2 else ["el", n[0], ""],
+    lambda n: ["seq", [["el", n[0], ""], ["el", n[1], ""], ["or", [["el", n[1], ""], ["el", n[2 % len(n)], ""]], "*"]], ""]
+    if len(n) > 2 else ["el", n[0], ""],
+    lambda n: ["seq", [["or", [["el", n[0], ""], ["el", n[1], ""]], ""], ["or", [["el", n[0], ""], ["el", n[2 % len(n)], ""]], ""]], ""]
+    if len(n) > 2 else ["el", n[0], ""],
     lambda n: ["el", n[0], "+"],
     lambda n: ["el", n[0], "*"],
     lambda n: ["el", n[0], ""],
